@@ -544,7 +544,9 @@ def check_conductor(value, old, with_model):
             out.append(problem("conductor", stage, "double-underscore name(s) %r in %s" % (bad, stage),
                                value_wire=enc(value), old_wire=enc(old)))
 
-    sess = provider.Session(make_def(value, old), {"v": copy.deepcopy(value)}, with_model=with_model)
+    # a parent context holding another value under the input's name: the runtime input must win
+    parent = {"v": "from-the-parent-context", "pq": 7} if (len(enc(value)) % 2 == 0) else None
+    sess = provider.Session(make_def(value, old), {"v": copy.deepcopy(value)}, parent=parent, with_model=with_model)
     try:
         def stored(tag):
             c = sess.impl.c
